@@ -403,7 +403,8 @@ def batch_probe(run, tier, rng):
 
 def plumbing_probe(run, tier, rng):
     """The coordinates the user designates are the ones the kernel wraps / folds: the periodic and reflective lists given to the
-    Sampler (and to parallel_mcmc) must reach the RWM runner unchanged and unswapped; the tpCN runner must end up with none."""
+    Sampler (and to parallel_mcmc) must reach the runner constructors unchanged and unswapped: the RWM runner ends up with the periodic
+    list and no reflective one (it rejects at reflective walls), the tpCN runner with none."""
     import tempest.mcmc as mc
     from tempest import Sampler
     seen = []
@@ -427,7 +428,8 @@ def plumbing_probe(run, tier, rng):
                             clustering=False, random_state=3, **kw)
                 s.run(n_total=12, progress=False)
                 run.case(key=("plumbing", kind, str(per), str(ref)), nontrivial=True)
-                want = (per, ref) if kind == "rwm" else (None, None)
+                # RWM wraps the designated periodic coordinates; neither kernel folds at reflective walls (both reject there)
+                want = (per, None) if kind == "rwm" else (None, None)
                 bad = [t for t in seen if (t[1], t[2]) != want]
                 if not seen or bad:
                     run.fail("designation-does-not-reach-the-kernel", f"Sampler(sample={kind!r}, periodic={per}, reflective={ref}): the runner works with "
